@@ -1,6 +1,6 @@
 #!/bin/sh
 # usage: tools/r5_first.sh <Cxx> [round dir]   -- first contact of freshly delivered changes a/b with the owning quick check
-P=$1; R=${2:-/tmp/r5}
+P=$1; R=${2:-/tmp/r7}
 cd "$(dirname "$0")/.." || exit 2
 for v in a b; do
   D=$R/$P/out/$v
